@@ -8,6 +8,7 @@
   * `EarlyC.val_lt`                       : early return of the digit-dropping loops ⇒ `val d < 10^-57`
   * `val_scale`                           : `r.sig = d.sig·10^j ∧ r.exp = d.exp - j → val r = val d`
   * `pow_neg_mul`                         : `e ≤ 0 → (10^(-e).toNat : ℚ)·10^e = 1`
+  * `dropped_lt`                          : `k ≠ 0 → sig < 2^192 → sig / 10^k < 10^57`
   * `Tr.relerr`                           : a truncation state keeps 57 digits:
                                             `(P·10^e0 - val r)·⌊2^192/10⌋ ≤ val r`
 -/
@@ -76,6 +77,17 @@ theorem pow_neg_mul (e : Int) (h : e ≤ 0) : ((10 ^ (-e).toNat : Nat) : ℚ) * 
   push_cast
   rw [zpow_neg, zpow_natCast]
   field_simp
+
+/-- once a digit has been dropped from a 192-bit significand at most 57 digits are left: the
+quotient is below `10^57` (so it is below the representation `10^57` of 1 at exponent `-57`). -/
+theorem dropped_lt (sig k : Nat) (hsig : sig < 2 ^ 192) (hk : k ≠ 0) : sig / 10 ^ k < 10 ^ 57 := by
+  have h10 : 10 ^ 1 ≤ 10 ^ k := Nat.pow_le_pow_right (by norm_num) (by omega)
+  have h1 : sig / 10 ^ k ≤ sig / 10 ^ 1 := Nat.div_le_div_left h10 (by norm_num)
+  have h2 : sig / 10 ^ 1 < 10 ^ 57 := by
+    rw [Nat.div_lt_iff_lt_mul (by norm_num)]
+    calc sig < 2 ^ 192 := hsig
+      _ ≤ _ := by norm_num
+  omega
 
 /-- a truncation state keeps 57 digits: the error is at most `val r / ⌊2^192/10⌋`. -/
 theorem Tr.relerr {P : Nat} {t0 t' : Int8} {e0 : Int16} {r : Gen.decomposed192} (K : Nat)
